@@ -202,7 +202,9 @@ pub struct SeqHdr {
     pub high_bitdepth: bool,
     pub twelve_bit: bool,
     pub mono: bool,
-    pub color_desc: u8, // 0 = absent, 1 = sRGB triple (1,13,0), 2 = BT.709 (1,1,1)
+    /// 0 = absent, 1 = sRGB triple (1,13,0), 2 = BT.709 (1,1,1); 3..=6 = near misses of the sRGB
+    /// triple that are *not* the special case: (1,13,1), (1,12,0), (2,13,0), (9,16,9)
+    pub color_desc: u8,
     pub subx: bool,
     pub suby: bool,
     pub csp: u8,
@@ -449,6 +451,10 @@ impl SeqHdr {
         let (cp, tc, mc) = match self.color_desc {
             1 => (1u8, 13u8, 0u8),
             2 => (1, 1, 1),
+            3 => (1, 13, 1),
+            4 => (1, 12, 0),
+            5 => (2, 13, 0),
+            6 => (9, 16, 9),
             _ => (2, 2, 2),
         };
         if self.color_desc != 0 {
